@@ -24,8 +24,8 @@ TARGET = "target-ключ-é"
 
 OPS = ["write", "write_existing_content", "write_hash", "writer_session", "writer_session_mmap", "read", "read_hash", "stream", "copy", "copy_hash", "hard_link", "metadata", "list",
        "remove", "remove_hash", "remove_fully", "clear", "exists", "link_to", "link_to_hash",
-       "writer_rejected_short", "writer_rejected_overflow", "writer_session_retrying"]
-REJECTED = ("writer_rejected_short", "writer_rejected_overflow")   # a clean run of these ends with SizeMismatch (memory-mapped temp file cut / left)
+       "writer_rejected_short", "writer_rejected_overflow", "writer_rejected_empty", "writer_session_retrying"]
+REJECTED = ("writer_rejected_short", "writer_rejected_overflow", "writer_rejected_empty")   # a clean run of these ends with SizeMismatch (memory-mapped temp file cut / left)
 WRITES = ("write", "write_existing_content", "write_hash", "writer_session", "writer_session_mmap", "writer_session_retrying", "remove", "remove_hash", "remove_fully", "link_to", "link_to_hash")
 
 
@@ -66,6 +66,9 @@ def program(op, cache, dest, side):
         # declared size (memory-mapped temp file) that the writer misses: fewer bytes / more bytes in a later chunk
         opts = {"time": "78", "size": NEW["n"] + 5 if op.endswith("short") else NEW["n"] - 4}
         h = {"ref": 0}
+        if op.endswith("empty"):
+            # nothing at all is delivered for a declared size of 5
+            return [{"op": ("sw_" if s else "aw_") + "open", "cache": cache, **({"key": TARGET} if s else {}), "opts": {"time": "78", "size": 5}}, {"op": "w_commit", "h": h}]
         # (the async keyed writer never maps its temp file; the async by-address writer does)
         return [{"op": ("sw_" if s else "aw_") + "open", "cache": cache, **({"key": TARGET} if s else {}), "opts": opts},
                 {"op": "w_write_all", "h": h, "data": {"gen": [NEW["n"], NEW["tag"], 0, 10]}},
@@ -129,6 +132,10 @@ def new_models(op, old, window):
         new = old.clone()
         new.write("second-key", sri(OLD), ref.gen(OLD["n"], OLD["tag"]), size=OLD["n"], time=window)
         out = [new]
+    elif op == "writer_rejected_empty":
+        mid = old.clone()
+        mid.content[ref.sri("sha256", b"")] = b""
+        out = [mid]
     elif op in REJECTED:
         mid = old.clone()
         mid.content[sri(NEW)] = d      # the bytes of a rejected commit may or may not stay retrievable by address
